@@ -131,14 +131,16 @@ H = {
  'r9-C18-1': "initially missed: no evaluation under a context that ends; added 8 fixed programs x 3 contexts (cancelled, deadline passed, ended by the program itself) x every script",
  'r9-C19-1': "initially missed: no program compared functions; added a fixed program comparing functions and macros with = (directly and inside collections)",
  'r9-C20-2': "initially missed: the context was live or had ended before the call, never ended during it; the error modes are repeated with the evaluation's context ending while the bound function runs",
+ # round 10 (six sub-agents, one change each, in the last half hour)
+ 'r10-C02-1': "initially missed: no map held an empty map as a value; added the operation (assoc m :n {} ...), after which (assoc-in m [:n :o] c) must build a new inner map",
 }
 res = {}
 for l in open('/verif/seeded/RESULTS.txt'):
     n = l.split(' | ')[0].strip()
     res[n] = [m.group(1) for m in re.finditer(r'\| (C\d\d) rc=1', l)]
 out = []
-for rnd in ('r2', 'r3', 'r4', 'r5', 'r6', 'r7', 'r8', 'r9'):
-    out.append(f"\n**Round {rnd[1]}**\n\n| seed | what it does (first line of the author's notes) | reported by (own-property quick check, regression matrix) | history |\n|---|---|---|---|")
+for rnd in ('r2', 'r3', 'r4', 'r5', 'r6', 'r7', 'r8', 'r9', 'r10'):
+    out.append(f"\n**Round {rnd[1:]}**\n\n| seed | what it does (first line of the author's notes) | reported by (own-property quick check, regression matrix) | history |\n|---|---|---|---|")
     for d in sorted(os.listdir('/verif/seeded')):
         if not d.startswith(rnd + '-'): continue
         notes = open(f'/verif/seeded/{d}/notes.md').read().splitlines()[0].lstrip('# ').strip()
